@@ -1169,7 +1169,18 @@ class FoldConstantsPass(ir.passes.InPlacePass):
             )
             return None
 
-        tensor = ir.tensor(output_array)
+        if output_array.dtype.kind in "OUS":
+            # String results (Concat / Gather / Identity ... of string constants): ir.tensor() would wrap the array
+            # in an ir.Tensor of dtype STRING, which cannot be serialized.
+            tensor = ir.StringTensor(
+                np.array(
+                    [s.encode("utf-8") if isinstance(s, str) else bytes(s) for s in output_array.ravel()],
+                    dtype=object,
+                ).reshape(output_array.shape),
+                shape=ir.Shape(output_array.shape),
+            )
+        else:
+            tensor = ir.tensor(output_array)
         tensor.name = output_name
 
         # Size gating (shared logic)
